@@ -1774,8 +1774,34 @@ def constructor_to_replace(trees: T.Dict[str, ast.Module], tree: ast.Module, unc
             if isinstance(c, ast.ClassDef) and any(ast.unparse(b).endswith("NamedTuple") for b in c.bases):
                 records[c.name] = [st.target.id for st in c.body if isinstance(st, ast.AnnAssign) and isinstance(st.target, ast.Name)]
     n = 0
+    # return annotations of the program's functions (by bare name): evidence for the type of a local bound from a call
+    returns: T.Dict[str, str] = {}
+    for t in trees.values():
+        for f in ast.walk(t):
+            if isinstance(f, (ast.FunctionDef, ast.AsyncFunctionDef)) and f.returns is not None:
+                returns.setdefault(f.name, ast.unparse(f.returns).split(".")[-1])
+
+    def typed_names(fd: ast.AST) -> T.Dict[str, str]:
+        out: T.Dict[str, str] = {}
+        a = fd.args
+        for p in a.posonlyargs + a.args + a.kwonlyargs:
+            if p.annotation is not None:
+                out[p.arg] = ast.unparse(p.annotation).split(".")[-1]
+        for st in ast.walk(fd):
+            if isinstance(st, ast.AnnAssign) and isinstance(st.target, ast.Name):
+                out.setdefault(st.target.id, ast.unparse(st.annotation).split(".")[-1])
+            elif isinstance(st, ast.Assign) and len(st.targets) == 1 and isinstance(st.targets[0], ast.Name) and isinstance(st.value, ast.Call):
+                fname = st.value.func.attr if isinstance(st.value.func, ast.Attribute) else st.value.func.id if isinstance(st.value.func, ast.Name) else ""
+                if fname in returns:
+                    out.setdefault(st.targets[0].id, returns[fname])
+                elif fname in records:
+                    out.setdefault(st.targets[0].id, fname)
+        return out
 
     class Tr(ast.NodeTransformer):
+        def __init__(self, types: T.Dict[str, str]):
+            self.types = types
+
         def visit_Call(self, call: ast.Call) -> ast.AST:
             nonlocal n
             self.generic_visit(call)
@@ -1794,15 +1820,15 @@ def constructor_to_replace(trees: T.Dict[str, ast.Module], tree: ast.Module, unc
             if not src:
                 return call
             x, cnt = max(src.items(), key=lambda kv: kv[1])
-            if cnt * 2 <= len(fields):
-                return call
+            if cnt * 2 <= len(fields) or self.types.get(x) != name:
+                return call          # (a record of another type with the same field names is not `x._replace(...)`)
             rest = [k for k in call.keywords if not (isinstance(k.value, ast.Attribute) and isinstance(k.value.value, ast.Name) and k.value.value.id == x and k.value.attr == k.arg)]
             n += 1
             return ast.copy_location(ast.Call(func=ast.Attribute(value=ast.Name(id=x, ctx=ast.Load()), attr="_replace", ctx=ast.Load()), args=[], keywords=rest), call)
 
     for fd in ast.walk(tree):
         if isinstance(fd, (ast.FunctionDef, ast.AsyncFunctionDef)) and not (unchanged and id(fd) in unchanged):
-            fd.body = [Tr().visit(st) for st in fd.body]
+            fd.body = [Tr(typed_names(fd)).visit(st) for st in fd.body]
     if n:
         ast.fix_missing_locations(tree)
     return n
